@@ -184,7 +184,7 @@ def run(ck):
             'C1.C1', 'C1.C=1', '[Na+].[Cl-]', 'C..C', '.C', 'C.', 'C(C', 'C((C))', 'C()C', 'C(C)', '(C)C', '(C)', 'CC(', '1CC1',
             '[C', 'C]', '[]', '[[C]]', '[C@@@H]', '[CH5]', '[CH0]', '[C+5]', '[1000C]', '[012C]', '[C:12345]', '[Xx]', '[co]',
             '[cH-]1cccc1', 'c1cc[nH]c1', 'c1ccncc1', '[n+]1ccccc1', 'C[N+](C)(C)C', 'C[N+](=O)[O-]', 'N#N', '[C-]#[O+]', '*', '[*]',
-            'C$C', 'CC(=O)O[H]', '[C@H](F)(Cl)[H]', '[C@](F)(Cl)([H])Br']
+            'C$C', 'CC(=O)O[H]', 'C.[C@H](F)(Cl)Br', '[Na+].[C@@H](F)(Cl)Br', '[C@H](F)(Cl)Br.[C@H](F)(Cl)Br', 'C1.[C@H]1(F)Cl', 'C(.[C@H](F)(Cl)Br)C', 'O.[C@@H](C)(N)O.[C@H](C)(N)O', '[C@H](F)(Cl)[H]', '[C@](F)(Cl)([H])Br']
     edge = sorted(set(edge))
     parts.append(('edge', [{'key': s, 's': s} for s in edge], False))
 
